@@ -9,6 +9,8 @@ Readings of scope re-activation: 'single' (the doc's "first time") and 'reactiva
 terminated after-until scope, a later activator opens a new instance).
 """
 
+from fractions import Fraction
+
 from hplsim import refeval
 
 READINGS = ('single', 'reactivate')
@@ -45,12 +47,20 @@ class Alt:
         return oc[1]
 
 
+def flatten(event):
+    """Alternatives of an event in source order, by the monitor's own walk over the two operand fields
+    of a disjunction (not through the library's simple_events(), which is part of what is checked)."""
+    if type(event).__name__ == 'HplEventDisjunction':
+        return flatten(event.event1) + flatten(event.event2)
+    return [event]
+
+
 class Ev:
     """An event position: list of alternatives (a disjunction matches iff some alternative does)."""
     __slots__ = ('alts',)
 
     def __init__(self, event):
-        self.alts = [Alt(e) for e in event.simple_events()] if event is not None else None
+        self.alts = [Alt(e) for e in flatten(event)] if event is not None else None
 
     def match(self, msg, env):
         """Returns the matching alternative (for alias binding) or None."""
@@ -71,7 +81,9 @@ class Prop:
         self.trigger = Ev(p.pattern.trigger) if p.pattern.trigger is not None else None
         self.behaviour = Ev(p.pattern.behaviour)
         mt = p.pattern.max_time
-        self.bound = None if mt == float('inf') else int(round(mt * 1000))
+        # the bound exactly as the library stores it (a float number of seconds), no rounding: a copy
+        # whose bound differs by a fraction of a millisecond is a different property
+        self.bound = None if mt == float('inf') else Fraction(mt) * 1000
 
 
 def _bind(env, alt, msg):
